@@ -18,6 +18,7 @@ from math import lcm
 import numpy as np
 
 from toqito.channel_ops import apply_channel, complementary_channel, dual_channel, kraus_to_choi
+from toqito.channels import partial_trace
 
 from ..exact import NotExact, call, split_int, present
 from .c04 import Z, gint, jkraus, jmat, mat_eq, safe_jmat, spec_apply, spec_choi, z_eq_arr
@@ -27,7 +28,9 @@ RULE = ("dual_channel: random Kraus families (A_i, B_i) with Gaussian-integer en
         "Choi matrix with dims given as 2x2 list, 2x2 array, [m, n], int or omitted where the code can infer them; operator pairs X, Y random Gaussian "
         "integers; all comparisons exact. complementary_channel: trace-preserving families of rank 1..4 on dimension 1..4 from exact rational isometries; "
         "inputs rho random Gaussian-integer matrices and pure states. Non-trivial: input and output spaces with more than one entry (dual), d >= 2 and rank >= 2 "
-        "(complementary); distinct = hash of (function, form, dims, rank, kind). Not generated: Choi matrices that are row/column vectors, empty lists.")
+        "(complementary); distinct = hash of (function, form, dims, rank, kind). Criteria stream (square spaces, dims >= 2): toqito's partial_trace of the Choi matrix returned by "
+        "kraus_to_choi over the output factor must equal (sum_k B_k^dagger A_k)^T and over the input factor Phi(1) = sum_k A_k B_k^dagger, exactly. When rank == dimension the "
+        "complementary channel of the returned complementary family must be the original family, exactly. Not generated: Choi matrices that are row/column vectors, empty lists.")
 ASSUMPTIONS = [
     "a bilinear/trilinear identity that fails holds on a random point of a box of side 2^6 per coordinate with probability <= 3/2^6 per case (Schwartz-Zippel)",
     "the completeness guard np.allclose(sum K^dagger K, I) is exercised only on exactly complete families (as rounded to doubles) and on families that miss completeness by a margin >= 1/4",
@@ -150,6 +153,29 @@ def check_dual(ctx, din, dout, r, cp, cplx, seed=None):
         return ok
     zA, zB = [Z.of(a) for a in As], [Z.of(b) for b in Bs]
     phiX = spec_apply(zA, zB, zX)
+    # ---- trace-preservation / unitality criteria on the code's own outputs (square spaces): the partial trace of the Choi matrix over the
+    #      output factor is (sum_k B_k^dagger A_k)^T, over the input factor it is Phi(1) = sum_k A_k B_k^dagger  (exact)
+    if di0 == di1 and do0 == do1 and di0 >= 2 and do0 >= 2:
+        ctx.case(dict(base, fn="dual_channel", form="criteria"), nontriv, "criteria/ptrace-of-choi")
+        cinfo = {"case_seed": seed, "function": "kraus_to_choi + partial_trace", "args": dict(base, fn="dual_channel", form="criteria"), "J": jmat(J),
+                 "theorem": "tp_iff_kraus_complete / tp_iff_choi_ptrace / unital_iff_choi_ptrace / choi_ptrace_is_partial_trace"}
+        t_out = call(partial_trace, J, [1], [di0, do0])
+        t_in = call(partial_trace, J, [0], [di0, do0])
+        sBdA = None
+        sABd = None
+        for a, b in zip(zA, zB):
+            t1, t2 = b.ct() @ a, a @ b.ct()
+            sBdA = t1 if sBdA is None else sBdA + t1
+            sABd = t2 if sABd is None else sABd + t2
+        want_out = Z(sBdA.re.T.copy(), sBdA.im.T.copy())
+        try:
+            good = t_out[0] == "ok" and t_in[0] == "ok" and z_eq_arr(want_out, t_out[1]) and z_eq_arr(sABd, t_in[1])
+        except NotExact:
+            good = False
+        if not good:
+            ok = False
+            ctx.violation("criteria: Tr_out J(Phi) != (sum_k B_k^dagger A_k)^T or Tr_in J(Phi) != Phi(1) (trace preservation / unitality read off the Choi matrix "
+                          "disagrees with the Kraus operators)", dict(cinfo, tr_out=str(t_out)[:300], tr_in=str(t_in)[:300]))
     dim_forms = ["mat", "array"]
     if di0 == di1 and do0 == do1:
         dim_forms.append("vec")
@@ -309,6 +335,13 @@ def check_compl(ctx, d, r, real_only=False, seed=None):
     if not all(np.array_equal(a, b) for a, b in zip(Ks, snap)):
         return not ctx.violation("complementary_channel: caller's arrays were modified", info)
     ok = True
+    # the complement of the complement is the original family (the code accepts its own output when rank == dimension)
+    if r == d:
+        ctx.count("complementary/double")
+        CC = call(complementary_channel, C)
+        if CC[0] != "ok" or not (isinstance(CC[1], list) and len(CC[1]) == len(Ks) and all(np.array_equal(np.asarray(x), np.asarray(y)) for x, y in zip(CC[1], Ks))):
+            ok = False
+            ctx.violation("complementary_channel: the complement of the complement is not the original family", dict(info, theorem="compl_compl", impl=str(CC)[:300]))
     # entries Tr(K_i rho K_j^dagger), exact reference
     rho = gint(rng, (d, d), True)
     zr = Z.of(rho)
